@@ -113,4 +113,22 @@ PLANS = {
         'design_ref': 'DESIGN.md 5.5',
         'level_note': 'trusted: /verif/ref/pda.py (summaries cross-checked against capped configuration BFS in selftest and again inside every case that BFS can decide)',
     },
+    'C02': {
+        'quick': {'rounds': 32, 'wall_cap_s': 150},
+        'thorough': {'rounds': 96, 'wall_cap_s': 1500},
+        'rule': ('cases = sessions of 3 steps over one object of one of the six kinds (DFA/NFA <= 5 states, PDA <= 4 states, TM <= 4 working states with partial delta, '
+                 'CFG <= 4 variables with epsilon/unit/cyclic rules, regexp <= 8 operators over single letters); a step draws n in 0..5 (0 and 1 over-weighted) and, '
+                 'for PDAs, sets the ambient closure limit (fixed list and exact-closure-size -1/0/+1/+5), for TMs passes max_steps in {0,1,2,5,20,1000}; per step: '
+                 'X_words_up_to_n, brute force over Sigma^<=n through the library\'s own X_accepts_word under the same knobs, and generate_language (one evaluation = one step). '
+                 'PDA equality is demanded only when no pda_epsilon_closure call of the step returned a non-closed set (observed through a wrapper, checked with the reference step relation). '
+                 'distinct = distinct abstract object; non-trivial = some step whose accepted set is neither empty nor Sigma^<=n.'),
+        'schedule_measure': 'distinct (abstract object, iteration order of its Q/Sigma/Gamma/F/V sets) pairs',
+        'assumptions': COMMON_ASSUMPTIONS + ['the oracle is the library\'s own acceptance test, as the statement says; its correctness is the business of other properties',
+                                             'multi-character regexp symbols and the set pass-through of generate_language are not among "the six kinds" and are not generated'],
+        'expected_probes': ['kind_dfa', 'kind_nfa', 'kind_pda', 'kind_tm', 'kind_cfg', 'kind_regexp', 'n_0', 'n_1', 'n_2', 'closure_truncated', 'nontrivial'],
+        'technique': 'deterministic simulation: seeded sessions over ambient knobs (closure limit, TM step budget, n) x schedules (PYTHONHASHSEED x renaming); brute-force oracle through the library\'s own acceptance test; truncation observed at the pda_epsilon_closure seam; minimised replay files',
+        'level_text': 'seeded sampling of objects of all six kinds x bounds x knob settings x schedules, three sub-checks per step (nothing longer than n, nothing missing, nothing extra) plus generate_language == direct call; candidly, for five of the six kinds this is input generation riding along with the PDA/TM configuration dimension; evidence, not proof',
+        'design_ref': 'DESIGN.md 5.1',
+        'level_note': 'trusted: the wrapper that observes closure truncation (ref/pda.py step relation); the library\'s own acceptance tests are the oracle by definition of the property',
+    },
 }
